@@ -21,7 +21,7 @@ META = {
                    "not carried comes back as a different constant or atom and the outputs differ (sat, replayed).",
     "bounds": {"quick": "exact (n=2,m=1), SGPR (M=2), variational (whitened+Cholesky, unwhitened+natural with fixed inducing buffer; M=2), KISS-GP "
                         "(grid buffer; stub grid covariance, training inputs on grid nodes), RFF (weight buffer), Hadamard multitask (IndexKernel), model list of two; save points: constructed / after one eval prediction / after train-eval switch",
-               "thorough": "same families with all (mechanism x save point) combinations"},
+               "thorough": "same families with all (mechanism x save point) combinations; 18 prior-registering module classes under pickle / deepcopy (log prior densities identical, sample_from_prior on the restored module); deepcopy right after a forward pass with gradients enabled (exact, SGPR, KISS-GP, variational in training and evaluation mode); restoring into a model in the middle of training"},
     "outside": ["Kronecker multitask models (MultitaskKernel + MultitaskGaussianLikelihood: eigendecomposition-based solves); the Hadamard "
                 "(IndexKernel) multitask model is covered", "KISS-GP with training inputs off the grid nodes / real base kernel", "bit-for-bit float identity is observed concretely, "
                 "the solver claim is identity as functions of the state", "rounding"],
